@@ -157,28 +157,31 @@ fn dump_segments(chain: &Chain, heights: [u8; 4], dir: &str, prefix: &str) -> Va
 		let mut nleaves = vec![];
 		let mut nhashes = vec![];
 		let mut nproof = vec![];
+		let mut tops: Vec<u64> = vec![];
 		for idx in 0..n as u64 {
 			let id = SegmentIdentifier { height: heights[t], idx };
 			let (first, last) = id.segment_pos_range(sizes[t]);
 			lasts.push(last);
 			let all_leaves = (first..=last).filter(|p| grin_core::core::pmmr::is_leaf(*p)).count();
 			let path = format!("{}/{}{}_{}.seg", dir, prefix, tree, idx);
-			let (nl, nh, np, bytes, extra): (usize, usize, usize, Vec<u8>, Option<Hash>) = match *tree {
+			let (nl, nh, np, bytes, extra, hp0): (usize, usize, usize, Vec<u8>, Option<Hash>, Option<u64>) = match *tree {
 				"bitmap" => {
 					let (s, root) = seg.bitmap_segment(id).expect("bitmap segment");
-					(s.leaf_iter().count(), s.hash_iter().count(), s.proof().size(), to_bytes(&BitmapSegment::from(s)), Some(root))
+					(s.leaf_iter().count(), s.hash_iter().count(), s.proof().size(), to_bytes(&BitmapSegment::from(s)), Some(root), None)
 				}
 				"output" => {
 					let (s, root) = seg.output_segment(id).expect("output segment");
-					(s.leaf_iter().count(), s.hash_iter().count(), s.proof().size(), to_bytes(&s), Some(root))
+					let hp = s.hash_iter().map(|x| x.0).collect::<Vec<u64>>().first().cloned();
+					(s.leaf_iter().count(), s.hash_iter().count(), s.proof().size(), to_bytes(&s), Some(root), hp)
 				}
 				"rangeproof" => {
 					let s = seg.rangeproof_segment(id).expect("rangeproof segment");
-					(s.leaf_iter().count(), s.hash_iter().count(), s.proof().size(), to_bytes(&s), None)
+					let hp = s.hash_iter().map(|x| x.0).collect::<Vec<u64>>().first().cloned();
+					(s.leaf_iter().count(), s.hash_iter().count(), s.proof().size(), to_bytes(&s), None, hp)
 				}
 				_ => {
 					let s = seg.kernel_segment(id).expect("kernel segment");
-					(s.leaf_iter().count(), s.hash_iter().count(), s.proof().size(), to_bytes(&s), None)
+					(s.leaf_iter().count(), s.hash_iter().count(), s.proof().size(), to_bytes(&s), None, None)
 				}
 			};
 			fs::write(&path, &bytes).expect("write seg");
@@ -189,11 +192,13 @@ fn dump_segments(chain: &Chain, heights: [u8; 4], dir: &str, prefix: &str) -> Va
 			nleaves.push(nl);
 			nhashes.push(nh);
 			nproof.push(np);
+			// the position that stands for the segment once applied: its last position, or the pruned root above it
+			tops.push(if nl == 0 && nh == 1 { std::cmp::max(hp0.unwrap_or(last), last) } else { last });
 		}
 		info.insert(
 			tree.to_string(),
 			json!({"height": heights[t], "size": sizes[t], "nseg": n, "last": lasts, "complete": complete,
-				"leaves": nleaves, "hashes": nhashes, "proof": nproof}),
+				"leaves": nleaves, "hashes": nhashes, "proof": nproof, "top": tops}),
 		);
 	}
 	Value::Object(info)
@@ -421,6 +426,7 @@ fn corrupt_seg<T: Clone + Readable + Writeable>(
 	required: Option<&HashSet<u64>>,
 ) -> Result<Segment<T>, String> {
 	let mut ps = PlainSeg::of(&seg);
+	let before = (ps.bytes_no_leaves(), ps.leaf_data.iter().map(|d| to_bytes(d)).collect::<Vec<_>>());
 	// a leaf whose data the root depends on: an unspent one for the prunable trees (the data of spent leaves is
 	// not authenticated by validation), any leaf otherwise; the last such leaf of the segment
 	let pick = (0..ps.leaf_pos.len())
@@ -444,10 +450,24 @@ fn corrupt_seg<T: Clone + Readable + Writeable>(
 		}
 		"alt_proof" => {
 			let n = ps.proof.len();
+			if n == 0 {
+				return Err("unavailable".into());
+			}
 			ps.proof[n - 1] = junk_hash();
 		}
-		"wrong_id" => ps.idx += 1,
+		"wrong_id" => {
+			// a fully pruned segment (no leaves, one hash standing for it) is the same object as its equally
+			// pruned neighbours: relabelling it yields another honest segment, not a corruption
+			if ps.leaf_pos.is_empty() {
+				return Err("unavailable".into());
+			}
+			ps.idx += 1
+		}
 		x => panic!("kind {}", x),
+	}
+	let after = (ps.bytes_no_leaves(), ps.leaf_data.iter().map(|d| to_bytes(d)).collect::<Vec<_>>());
+	if !matches!(kind, "honest" | "stale" | "wrong_tree") && before == after {
+		return Err("unavailable".into());
 	}
 	if direct {
 		ps.to_segment_direct().map_err(|e| format!("unreadable: {}", e))
@@ -456,12 +476,16 @@ fn corrupt_seg<T: Clone + Readable + Writeable>(
 	}
 }
 
-/// Replace the data of leaf i by the (different) data of a neighbouring leaf.
-fn copy_neighbour<T: Clone>(ps: &mut PlainSeg<T>, i: usize) {
-	let j = if i > 0 { i - 1 } else { i + 1 };
-	if j < ps.leaf_data.len() {
-		ps.leaf_data[i] = ps.leaf_data[j].clone();
-	}
+/// Alter the data of leaf i in place (one byte of the commitment / proof / excess), so that the alteration never
+/// depends on the segment having a second leaf.
+fn alt_output(ps: &mut PlainSeg<OutputIdentifier>, i: usize) {
+	ps.leaf_data[i].commit.0[7] ^= 0x01;
+}
+fn alt_rangeproof(ps: &mut PlainSeg<RangeProof>, i: usize) {
+	ps.leaf_data[i].proof[7] ^= 0x01;
+}
+fn alt_kernel(ps: &mut PlainSeg<TxKernel>, i: usize) {
+	ps.leaf_data[i].excess.0[7] ^= 0x01;
 }
 
 fn applied_count(h: u8, total: u64, local: u64) -> u64 {
@@ -635,6 +659,15 @@ fn run_phase(args: &Args) -> i32 {
 								continue;
 							}
 						};
+						if kind == "stale" {
+							// only a stale segment that differs from the current one is a corruption
+							if let Ok(cur) = fs::read(format!("{}/{}_{}.seg", dir, from_tree, idx)) {
+								if cur == bytes {
+									events.push(json!({"k": "Add", "tree": tree, "idx": idx, "kind": kind, "verdict": "unavailable"}));
+									continue;
+								}
+							}
+						}
 						let other_root = fs::read_to_string(format!("{}/{}_{}.seg.root", dir, tree, idx))
 							.ok()
 							.map(|s| Hash::from_hex(s.trim()).unwrap());
@@ -659,15 +692,15 @@ fn run_phase(args: &Args) -> i32 {
 									de.add_bitmap_segment(s, other_root.unwrap()).map_err(|e| format!("{}", e))
 								}
 								"output" => {
-									let s = corrupt::<OutputIdentifier>(&bytes, kind, &copy_neighbour, Some(&unspent_pos0))?;
+									let s = corrupt::<OutputIdentifier>(&bytes, kind, &alt_output, Some(&unspent_pos0))?;
 									de.add_output_segment(s, other_root).map_err(|e| format!("{}", e))
 								}
 								"rangeproof" => {
-									let s = corrupt::<RangeProof>(&bytes, kind, &copy_neighbour, Some(&unspent_pos0))?;
+									let s = corrupt::<RangeProof>(&bytes, kind, &alt_rangeproof, Some(&unspent_pos0))?;
 									de.add_rangeproof_segment(s).map_err(|e| format!("{}", e))
 								}
 								_ => {
-									let s = corrupt::<TxKernel>(&bytes, kind, &copy_neighbour, None)?;
+									let s = corrupt::<TxKernel>(&bytes, kind, &alt_kernel, None)?;
 									de.add_kernel_segment(s).map_err(|e| format!("{}", e))
 								}
 							}
